@@ -29,6 +29,21 @@ theorem C20_flagop_mode_invariance (f f' g g' : Flag) (hf : f.val = f'.val) (hg 
     (Flag.xor f g).val = (Flag.xor f' g').val ∧ (Flag.not f).val = (Flag.not f').val := by
   simp [hf, hg]
 
+/-- Boolean algebra as *equalities of flags* (truth value and staging mode together):
+    involution, De Morgan, commutativity. -/
+theorem C20_flagop_algebra (f g : Flag) :
+    Flag.not (Flag.not f) = f ∧
+    Flag.not (Flag.and f g) = Flag.or (Flag.not f) (Flag.not g) ∧
+    Flag.not (Flag.or f g) = Flag.and (Flag.not f) (Flag.not g) ∧
+    Flag.and f g = Flag.and g f ∧ Flag.or f g = Flag.or g f ∧ Flag.xor f g = Flag.xor g f := by
+  cases f with
+  | conc a => cases g with
+    | conc b => cases a <;> cases b <;> decide
+    | dyn b => cases a <;> cases b <;> decide
+  | dyn a => cases g with
+    | conc b => cases a <;> cases b <;> decide
+    | dyn b => cases a <;> cases b <;> decide
+
 example : (Flag.conc true).val = (Flag.dyn true).val := rfl
 
 /-- Array flags: elementwise for equal lengths (any length), scalar operands broadcast, unequal
